@@ -4,6 +4,20 @@ From OG Require Import C07.Model.
 Import ListNotations.
 Open Scope Z_scope.
 
+(* evaluate every CLOSED comparison in the goal (mode tags against the generated constants) *)
+Ltac tagsimp :=
+  repeat match goal with
+  | |- context [?a =? ?b] =>
+      let r := eval vm_compute in (a =? b) in
+      match r with true => change (a =? b) with true | false => change (a =? b) with false end
+  | |- context [?a <? ?b] =>
+      let r := eval vm_compute in (a <? b) in
+      match r with true => change (a <? b) with true | false => change (a <? b) with false end
+  | |- context [?a <=? ?b] =>
+      let r := eval vm_compute in (a <=? b) in
+      match r with true => change (a <=? b) with true | false => change (a <=? b) with false end
+  end; cbn [negb orb andb]; cbv iota.
+
 Lemma len_nonneg {A} (l : list A) : 0 <= len l.
 Proof. unfold len. lia. Qed.
 Lemma len_app {A} (a b : list A) : len (a ++ b) = len a + len b.
